@@ -137,6 +137,22 @@ CHECKS = {
         note="last refresh read from the node's expiry field; delay 0 counts as <= 1 s; timeouts >= 1 in heterogeneous meshes",
         technique="TLA+ spec Interval + TLC; systematic plans on real nodes; TLC record validation",
         design_ref="DESIGN.md 3.7, 6 (C15)"),
+    "C11": dict(
+        text="Prefix.tla (four equivalent statements of 'base/plen contains addr' checked against each other on the complete 8-bit universe) and Table.tla (claims, decision cache, "
+             "learning, expiry; LookupIsLPM, CacheBounded) are checked by TLC over all operation sequences to length 4-6; every exported transition is executed once on the real ClaimTable "
+             "(tree replay) plus random 300-step sequences, and TLC validates lookup results and dumps after every call; Range::matches is validated on the embedded 8-bit universe, 16-bit rows, "
+             "random long addresses and length mismatches; router meshes of real nodes with nested claims are replayed through Forward.tla.",
+        note="ties between equal prefix lengths admit any tied peer; remaining lifetimes are judged by presence after later sweeps (boundary tick follows the dump); dropped-payload counter not read",
+        technique="TLA+ specs Table/Prefix/Forward + TLC exhaustive; transition-tree replay on the real table; TLC trace validation",
+        design_ref="DESIGN.md 3.5, 6 (C11); docs/C11.md"),
+    "C12": dict(
+        text="Table.tla (ClaimsAreLastAnnouncement, NextHopsArePeers) over announcement sequences on all subsets and orders of a 4-claim universe incl. duplicates, replayed on the real "
+             "ClaimTable; on real router- and switch-mode meshes peers restart on the same address with other claims, fall silent, close, or have a replayed handshake fail, interleaved with "
+             "traffic and time, and after every step every node's table dump is judged by TLC against its peer list (claims = last announcement of that peer instance; every claim, cached "
+             "decision and learned address points at a current peer; no payload to a non-peer).",
+        note="peer timeout 130 s in recorded runs; expected claims = configuration of the node instance whose node id the peer entry carries",
+        technique="TLA+ spec Table + TLC; transition-tree replay; scenario runs on real meshes with TLC record validation",
+        design_ref="DESIGN.md 3.5, 3.6, 6 (C12)"),
 }
 
 PENDING = {}
